@@ -79,6 +79,9 @@ func startLineProc(bin string, args ...string) (*lineProc, error) {
 }
 
 func (p *lineProc) close() {
+	if p == nil {
+		return
+	}
 	p.wc.Close()
 	p.cmd.Wait()
 }
@@ -437,13 +440,16 @@ func retsOf(t *trace) []retEv {
 // ---------------------------------------------------------------- a worker: instrumented driver + model driver + directory
 
 type worker struct {
-	shim  *lineProc
-	model *lineProc
-	dir   string
+	shim     *lineProc
+	model    *lineProc
+	dir      string
+	shimBin  string
+	modelBin string
+	restarts int // how often a line process died and was started again
 }
 
 func newWorker(shimBin, modelBin, base string, k int) (*worker, error) {
-	w := &worker{dir: filepath.Join(base, fmt.Sprintf("w%d", k))}
+	w := &worker{dir: filepath.Join(base, fmt.Sprintf("w%d", k)), shimBin: shimBin, modelBin: modelBin}
 	if err := os.MkdirAll(w.dir, 0o777); err != nil {
 		return nil, err
 	}
@@ -478,9 +484,29 @@ func (w *worker) runImpl(procs, sched, fault, now string) (*trace, error) {
 		line += " fault:" + fault
 	}
 	line += " now:" + now
+	if w.shim == nil {
+		var err error
+		if w.shim, err = startLineProc(w.shimBin); err != nil {
+			w.shim = nil
+			return nil, err
+		}
+	}
 	ans, err := w.shim.ask(line)
 	if err != nil {
-		return nil, err
+		// The instrumented driver died (a run-time panic outside any task, e.g. a finalizer of the code under
+		// test firing for an object that a crashed task of an EARLIER scenario left behind): start a fresh one
+		// and run this scenario again, so that one death does not take the rest of the run down.
+		w.shim.close()
+		w.restarts++
+		if w.shim, err = startLineProc(w.shimBin); err != nil {
+			w.shim = nil
+			return nil, err
+		}
+		if ans, err = w.shim.ask(line); err != nil {
+			w.shim.close()
+			w.shim = nil
+			return nil, fmt.Errorf("instrumented driver died twice on this scenario: %v", err)
+		}
 	}
 	return parseTrace(ans)
 }
@@ -489,7 +515,15 @@ func (w *worker) runImpl(procs, sched, fault, now string) (*trace, error) {
 // answer (`ok <files>` / `reject …`).
 func (w *worker) replay(now string, init []fileState, procs string, t *trace) (string, []string, error) {
 	evs, panics := modelEvents(t)
-	ans, err := w.model.ask("replay " + now + " " + initSpec(init) + " " + modelTasks(procs) + " " + evs + " " + t.end)
+	line := "replay " + now + " " + initSpec(init) + " " + modelTasks(procs) + " " + evs + " " + t.end
+	ans, err := w.model.ask(line)
+	if err != nil { // the model driver died: one fresh start, then give up on this case only
+		w.model.close()
+		w.restarts++
+		if w.model, err = startLineProc(w.modelBin); err == nil {
+			ans, err = w.model.ask(line)
+		}
+	}
 	return ans, panics, err
 }
 
@@ -532,7 +566,7 @@ func describeTrace(t *trace) string {
 
 func runCachePut(tier string, seed int64, model string, replay string) *corr.Result {
 	res := corr.NewResult("cacheput", tier, seed)
-	res.Rule = "a case is one instrumented execution of the real cache code (C12: one Put with one injected file-operation fault and/or source misbehaviour from a prepared directory, followed by lookups in a fresh process; C11: 2–4 processes × 1–2 goroutines doing Put/GetBytes/GetFile under one schedule); it is non-trivial when the execution performs at least one file operation of a Put after the injection point or interleaves at least two tasks; every case is replayed step by step in the Lean model (system call, arguments, result of every step; reported results; final directory)"
+	res.Rule = "a case is one instrumented execution of the real cache code (C12: one Put with one injected file-operation fault and/or source misbehaviour from a prepared directory, followed by lookups in a fresh process; C11: 2–4 processes × 1–2 goroutines doing Put/GetBytes/GetFile under one schedule — random schedules, all schedules with at most two preemptions of two-task configurations, and the three-task window schedules writer A / writer B / reader, some of them with one writer whose source fails); it is non-trivial when the execution performs at least one file operation of a Put after the injection point or interleaves at least two tasks; every case is replayed step by step in the Lean model (system call, arguments, result of every step; reported results; final directory); the real-goroutine lane of C11 (unmodified package, one *cache.Cache shared by goroutines, oracle only) is not counted as a case, its lookups are counted under oracle_checked"
 	built, err := buildShim()
 	if err != nil {
 		res.Observations = append(res.Observations, "cannot build the instrumented driver: "+err.Error())
@@ -554,6 +588,7 @@ func runCachePut(tier string, seed int64, model string, replay string) *corr.Res
 	}
 	h.runC12()
 	h.runC11()
+	h.runShared(sharedConfigs(tier))
 	if tier == "thorough" {
 		h.runRealOS()
 	}
